@@ -652,6 +652,59 @@ func (c *SpecCtx) call(e *ast.CallExpr) Value {
 			}
 		}
 		c.fail("len of unsupported value")
+	case "str":
+		v := c.eval(e.Args[0])
+		switch x := v.(type) {
+		case SliceV:
+			if x.Abs != nil {
+				return x.Abs.Str
+			}
+			return strOfCells(c.bytesOf(x))
+		default:
+			return strOfCells(c.bytesOf(v))
+		}
+	case "slen":
+		return SLen(c.term(e.Args[0]))
+	case "cat":
+		return Cat(c.args(e)...)
+	case "H":
+		return HashOf(c.term(e.Args[0]))
+	case "strxor":
+		a := c.args(e)
+		return StrXor(a[0], a[1])
+	case "sub":
+		a := c.args(e)
+		return SubStr(a[0], int(a[1].val.Int64()), int(a[2].val.Int64()))
+	case "lit":
+		return StrLit([]byte(c.eval(e.Args[0]).(StrV).S))
+	case "zeros":
+		return StrLit(make([]byte, int(c.term(e.Args[0]).val.Int64())))
+	case "byte":
+		t := c.term(e.Args[0])
+		if t.IsConst() {
+			return StrLit([]byte{byte(t.val.Int64())})
+		}
+		return App("bytes1", SStr, t)
+	case "i2osp2":
+		t := c.term(e.Args[0])
+		if t.IsConst() {
+			v := t.val.Int64()
+			return StrLit([]byte{byte(v >> 8), byte(v)})
+		}
+		return Cat(App("bytes1", SStr, Mod(Div(t, IntI(256)), IntI(256))), App("bytes1", SStr, Mod(t, IntI(256))))
+	case "strcells":
+		// strcells(S, n) or strcells(S, off, n): the bytes S[off .. off+n) as cells
+		s := c.term(e.Args[0])
+		off := 0
+		n := int(c.term(e.Args[len(e.Args)-1]).val.Int64())
+		if len(e.Args) == 3 {
+			off = int(c.term(e.Args[1]).val.Int64())
+		}
+		cells := make([]Value, n)
+		for i := range cells {
+			cells[i] = At(s, off+i)
+		}
+		return AggV{Cells: cells}
 	case "rndblock":
 		return rndBlock(c.term(e.Args[0]))
 	case "hexvalid":
